@@ -9,7 +9,7 @@ import scipy.sparse.linalg as spsla
 
 from pymoto import Signal, Module, DyadCarrier
 from pymoto.solvers import auto_determine_solver
-from pymoto.solvers import matrix_is_sparse, matrix_is_complex, matrix_is_hermitian, LDAWrapper
+from pymoto.solvers import matrix_is_sparse, matrix_is_complex, matrix_is_hermitian, matrix_is_symmetric, LDAWrapper
 
 
 class StaticCondensation(Module):
@@ -75,7 +75,15 @@ class StaticCondensation(Module):
         C = np.zeros((self.n, len(self.m)), dtype=self.X.dtype)
         C[self.m, ...] = np.eye(len(self.m))
         C[self.f, ...] = -self.X
-        return C @ dfdB @ C.T if isinstance(dfdB, DyadCarrier) else DyadCarrier(list(C.T), list(np.asarray(dfdB @ C.T)))
+        A = self.sig_in[0].state
+        if matrix_is_symmetric(A):
+            L = C
+        else:  # Ared = L^T A C with L = [I; -Aff^-T Amf^T], which only equals C for a symmetric matrix
+            Amf = A[self.m, ...][..., self.f]
+            L = np.zeros_like(C)
+            L[self.m, ...] = np.eye(len(self.m))
+            L[self.f, ...] = -self.module_LinSolve.solver.solve((Amf.toarray() if sps.issparse(Amf) else Amf).T, trans='T')
+        return L @ dfdB @ C.T if isinstance(dfdB, DyadCarrier) else DyadCarrier(list(L.T), list(np.asarray(dfdB @ C.T)))
 
 
 class SystemOfEquations(Module):
